@@ -279,6 +279,15 @@ def gen_model_multi(rng, toks, dur=None):
             out += 'caf\udce9 \udcff\n'
         else:
             err += 'r\udce9sum\udce9\n'
+    longout = r2.random() < 0.06
+    if longout:
+        # a command that prints a long trace (more than a pipe buffer, more
+        # than 64 KiB) before the part that matters
+        trace = 'trace: step done, nothing to report here\n' * 1800
+        if r2.random() < 0.5:
+            out = trace + out
+        else:
+            err = trace + err
     classes = {
         'bug': {'exit': ex, 'out': out, 'err': err, 'beh': beh},
         # stdout contains the golden stdout but is longer
@@ -305,6 +314,14 @@ def gen_model_multi(rng, toks, dur=None):
     names = ['out_superset', 'err_superset', 'out_differs', 'err_differs',
              'exit_differs', 'streams_swapped']
     rng.shuffle(names)
+    if longout:
+        # the same long trace, another end
+        classes['tail_differs'] = {
+            'exit': ex,
+            'out': (out[:-4] + 'xyz\n') if out.startswith('trace:') else out,
+            'err': (err[:-4] + 'xyz\n') if err.startswith('trace:') else err,
+            'beh': beh}
+        names.insert(0, 'tail_differs')
     if raw:
         # the same text with another undecodable byte: different streams
         classes['bytes_differ'] = {
